@@ -255,7 +255,7 @@ void flow_prop(DP &dp, const ref::Bytes &sched, Ctx &ctx, bool with_stall) {
 			ref::Msg m;
 			m.addr = n.addr;
 			m.type = t;
-			m.seq = s.next_up_seq(n.addr);
+			m.seq = dp.chance(40) ? (uint8_t) 0 : s.next_up_seq(n.addr);
 			m.data = dp.bytes((size_t) dp.range(1, 6));
 			ctx.desc << "  t=" << vf_now_us() / 1000 << "ms rx from " << (n.addr.empty() ? "0" : hex(n.addr)) << " type=" << std::hex << (int) t << std::dec << " (" << what << ")\n";
 			// reference models
@@ -294,7 +294,8 @@ void flow_prop(DP &dp, const ref::Bytes &sched, Ctx &ctx, bool with_stall) {
 			ref::Msg m;
 			m.addr = n.addr;
 			m.type = M::STALL;
-			m.seq = s.next_up_seq(n.addr);
+			// sequence number 0 = "not numbered" is legal for any uplink message
+			m.seq = dp.chance(70) ? (uint8_t) 0 : s.next_up_seq(n.addr);
 			m.data = {st};
 			if (st) {
 				for (auto &x : nodes)
